@@ -85,7 +85,9 @@ func main() {
 			}
 		}
 	}
-	gen(args.Tier, xvlib.NewRng(args.Seed), run)
+	// xvlib.NewRng(s) walks one global sequence from offset s: neighbouring seeds would meet after a few draws
+	// (generation re-synchronises at case boundaries) and produce the same run; keep the seeds 2^32 draws apart
+	gen(args.Tier, xvlib.NewRng(args.Seed<<32|0x5eed), run)
 }
 
 func safeExec(exec func(string, bool) string, line string) (res string) {
